@@ -34,7 +34,7 @@ fn gen(rng: &mut Rng, case: u64) -> Case {
     let const_dt = if rng.chance(0.3) { Some(rng.step_ns(1_000, 3_600_000_000_000)) } else { None };
     for _ in 0..len {
         t += const_dt.unwrap_or_else(|| rng.step_ns(1_000, 3_600_000_000_000));
-        let input = match rng.below(14) { 0 => Ev::None, 1 => Ev::Err(1 + rng.below(2) as u8), 2 => { let c = f32::from(cur); Ev::Some(t, [c, c, c]) } // error exactly zero
+        let input = match rng.below(14) { 0 => Ev::None, 1 => Ev::Err(rng.err_code()), 2 => { let c = f32::from(cur); Ev::Some(t, [c, c, c]) } // error exactly zero
             3 => match steps.iter().rev().find_map(|s: &Step| if let Ev::Some(_, v) = s.input { Some(v) } else { None }) { Some(v) => Ev::Some(t, v), None => Ev::Some(t, [rng.moderate(1e3), rng.moderate(1e3), rng.moderate(1e3)]) }, // same state again
             _ => Ev::Some(t, [rng.moderate(1e3), rng.moderate(1e3), rng.moderate(1e3)]) };
         let mut set = None;
@@ -56,7 +56,7 @@ fn gen(rng: &mut Rng, case: u64) -> Case {
 #[derive(Clone, Debug, PartialEq)]
 enum O { Err(u8), None, Some(i64, f32), Other }
 fn obs(o: Out<f32>) -> O {
-    match o { Err(Error::Other(e)) => O::Err(e), Err(_) => O::Other, Ok(None) => O::None, Ok(Some(d)) => O::Some(d.time.0, d.value) }
+    match o { Err(Error::Other(e)) => O::Err(e), Err(Error::FromNone) => O::Err(0), Err(_) => O::Other, Ok(None) => O::None, Ok(Some(d)) => O::Some(d.time.0, d.value) }
 }
 /// run the real CommandPID; `drop_same_sets`: twin that never receives a *direct* set() equal to the
 /// command in force (a followed getter that keeps returning the command in force is itself a stream of
@@ -159,7 +159,7 @@ fn main() {
                     r = Ref::default();
                     rep.tally("error_inputs");
                     resets_seen |= 8;
-                    if *got != O::Err(*e) || *upd != Err(Error::Other(*e)) {
+                    if *got != O::Err(*e) || *upd != Err(err_code(*e)) {
                         rep.violation("C11/input-error-not-reported", "cmdpid", case, format!("step {}: input error {} but update -> {:?}, output {:?}; case={:?}", i, e, upd, got, c));
                         ok_case = false;
                         break;
